@@ -76,8 +76,22 @@ def run_harness(binary, lines, timeout_s=10, workers=None, env_extra=None):
         while pos < len(chunk):
             todo = chunk[pos:]
             with tempfile.TemporaryFile() as errf:
-                p = subprocess.run([binary, str(timeout_s)], input=("\n".join(todo) + "\n").encode(),
-                                   stdout=subprocess.PIPE, stderr=errf, env=env)
+                # wall-clock guard on top of the probe's own per-case alarm (a probe stuck in its signal
+                # handler or in a sanitizer report would otherwise hang the whole check)
+                wall = max(300.0, len(todo) * 0.25 + timeout_s * 4)
+                pp = subprocess.Popen([binary, str(timeout_s)], stdin=subprocess.PIPE, stdout=subprocess.PIPE, stderr=errf, env=env)
+                hung = False
+                try:
+                    sout, _ = pp.communicate(("\n".join(todo) + "\n").encode(), timeout=wall)
+                except subprocess.TimeoutExpired:
+                    pp.kill()
+                    sout, _ = pp.communicate()
+                    hung = True
+
+                class _P:
+                    pass
+                p = _P()
+                p.stdout, p.returncode = sout, (-9 if hung else pp.returncode)
                 errf.seek(0)
                 err = errf.read().decode("latin-1", "replace")
             got = 0
@@ -96,7 +110,7 @@ def run_harness(binary, lines, timeout_s=10, workers=None, env_extra=None):
                 pos += got
                 continue
             cid = todo[got].split(" ", 1)[0]
-            res[cid] = "crash " + classify_crash(err, p.returncode)
+            res[cid] = "diverges" if hung else "crash " + classify_crash(err, p.returncode)
             res[cid + "#stderr"] = err[-3000:]
             pos += got + 1
         return res
